@@ -152,10 +152,10 @@ Section Ring.
   Proof.
     intros Hinv r. subst r. unfold update_sy, accepted.
     destruct forced; cbn [negb andb orb].
-    - cbn [fst snd]. pose proof (hist_store P st {| sl_s := s; sl_y := y; sl_ρ := Some (n1 / vdot y s); sl_α := sl_α (get st (st_idx st)) |} Hinv) as [Hh Hi].
+    - cbn [fst snd]. pose proof (hist_store P st {| sl_s := s; sl_y := y; sl_ρ := Some (n1 / vdot y s); sl_α := sl_α (get st (st_idx st)); sl_skip := sl_skip (get st (st_idx st)) |} Hinv) as [Hh Hi].
       cbn zeta in Hh, Hi. split; [reflexivity|]. split; [exact Hi|]. split; [discriminate|]. intros _. unfold hist3. rewrite Hh, map_push. reflexivity.
     - destruct (update_valid pw P (vdot y s) (vsqnorm s) pp); cbn [negb fst snd].
-      + pose proof (hist_store P st {| sl_s := s; sl_y := y; sl_ρ := Some (n1 / vdot y s); sl_α := sl_α (get st (st_idx st)) |} Hinv) as [Hh Hi].
+      + pose proof (hist_store P st {| sl_s := s; sl_y := y; sl_ρ := Some (n1 / vdot y s); sl_α := sl_α (get st (st_idx st)); sl_skip := sl_skip (get st (st_idx st)) |} Hinv) as [Hh Hi].
         cbn zeta in Hh, Hi. split; [reflexivity|]. split; [exact Hi|]. split; [discriminate|]. intros _. unfold hist3. rewrite Hh, map_push. reflexivity.
       + split; [reflexivity|]. split; [exact Hinv|]. split; [reflexivity|discriminate].
   Qed.
@@ -177,7 +177,7 @@ Section Ring.
   Proof. unfold same_shape, set_slot, history; cbn. rewrite upd_length. auto. Qed.
   Lemma set_α_shape st i a : same_shape st (set_α st i a).
   Proof. apply set_slot_shape. Qed.
-  Lemma set_ρ_shape st i r : same_shape st (set_ρ st i r).
+  Lemma set_mark_shape st i : same_shape st (set_mark st i).
   Proof. apply set_slot_shape. Qed.
 
   Lemma get_set_slot_other st i j sl : i <> j -> get (set_slot st i sl) j = get st j.
@@ -189,30 +189,24 @@ Section Ring.
 
   (* pairs (s, y) of every slot *)
   Definition sy (sl : slot T) : pair T := (sl_s sl, sl_y sl).
-  Lemma sy_set_α st i a j : sy (get (set_α st i a) j) = sy (get st j).
+  (* rewriting slot i with the same (s, y, ρ) keeps (s, y, ρ) of every slot *)
+  Lemma syρ_set_slot_same st i sl j : syρ sl = syρ (get st i) -> syρ (get (set_slot st i sl) j) = syρ (get st j).
   Proof.
-    unfold set_α. destruct (Nat.eq_dec i j) as [->|Hne]; [|rewrite get_set_slot_other by assumption; reflexivity].
+    intros Hsl. destruct (Nat.eq_dec i j) as [->|Hne]; [|rewrite get_set_slot_other by assumption; reflexivity].
     destruct (Nat.lt_ge_cases j (history st)).
-    - rewrite get_set_slot_same by assumption. reflexivity.
-    - rewrite !get_out_of_range; auto. pose proof (set_slot_shape st j {| sl_s := sl_s (get st j); sl_y := sl_y (get st j); sl_ρ := sl_ρ (get st j); sl_α := a |}) as (_ & _ & _ & Hh).
-      rewrite Hh; assumption.
+    - rewrite get_set_slot_same by assumption. exact Hsl.
+    - rewrite !get_out_of_range; auto. destruct (set_slot_shape st j sl) as (_ & _ & _ & Hh). rewrite Hh; assumption.
   Qed.
   Lemma syρ_set_α st i a j : syρ (get (set_α st i a) j) = syρ (get st j).
-  Proof.
-    unfold set_α. destruct (Nat.eq_dec i j) as [->|Hne]; [|rewrite get_set_slot_other by assumption; reflexivity].
-    destruct (Nat.lt_ge_cases j (history st)).
-    - rewrite get_set_slot_same by assumption. reflexivity.
-    - rewrite !get_out_of_range; auto. pose proof (set_slot_shape st j {| sl_s := sl_s (get st j); sl_y := sl_y (get st j); sl_ρ := sl_ρ (get st j); sl_α := a |}) as (_ & _ & _ & Hh).
-      rewrite Hh; assumption.
-  Qed.
-  Lemma sy_set_ρ st i r j : sy (get (set_ρ st i r) j) = sy (get st j).
-  Proof.
-    unfold set_ρ. destruct (Nat.eq_dec i j) as [->|Hne]; [|rewrite get_set_slot_other by assumption; reflexivity].
-    destruct (Nat.lt_ge_cases j (history st)).
-    - rewrite get_set_slot_same by assumption. reflexivity.
-    - rewrite !get_out_of_range; auto. pose proof (set_slot_shape st j {| sl_s := sl_s (get st j); sl_y := sl_y (get st j); sl_ρ := r; sl_α := sl_α (get st j) |}) as (_ & _ & _ & Hh).
-      rewrite Hh; assumption.
-  Qed.
+  Proof. unfold set_α. apply syρ_set_slot_same. reflexivity. Qed.
+  Lemma syρ_set_mark st i j : syρ (get (set_mark st i) j) = syρ (get st j).
+  Proof. unfold set_mark. apply syρ_set_slot_same. reflexivity. Qed.
+  Lemma sy_of_syρ (a b : slot T) : syρ a = syρ b -> sy a = sy b.
+  Proof. unfold syρ, sy. intros E. injection E as -> -> _. reflexivity. Qed.
+  Lemma sy_set_α st i a j : sy (get (set_α st i a) j) = sy (get st j).
+  Proof. apply sy_of_syρ, syρ_set_α. Qed.
+  Lemma sy_set_mark st i j : sy (get (set_mark st i) j) = sy (get st j).
+  Proof. apply sy_of_syρ, syρ_set_mark. Qed.
 
   (* first loop of apply: only α changes *)
   Lemma rev_loop_shape l : forall st q, same_shape st (fst (rev_loop l st q)).
@@ -255,37 +249,45 @@ Section Ring.
       apply hist3_same; [exact Hs|]. intros j. pose proof (rev_loop_syρ (rev_idx st) st q j) as Hx. rewrite Hr in Hx. exact Hx.
   Qed.
 
-  (* masked first loop: only ρ and α change *)
+  (* masked first loop: only the workspace α (value and NaN mark) changes; s, y and the stored ρ of EVERY slot stay *)
   Lemma mrev_loop_shape P J fJ l : forall st q γ, same_shape st (fst (fst (mrev_loop pw P J fJ l st q γ))).
   Proof.
     induction l as [|i l IH]; intros st q γ; cbn [mrev_loop]; [apply same_shape_refl|].
     cbn zeta. destruct (negb _).
-    - eapply same_shape_trans; [apply set_ρ_shape|apply IH].
-    - eapply same_shape_trans; [|apply IH]. eapply same_shape_trans; [apply set_ρ_shape|apply set_α_shape].
+    - eapply same_shape_trans; [apply set_mark_shape|apply IH].
+    - eapply same_shape_trans; [apply set_α_shape|apply IH].
   Qed.
-  Lemma mrev_loop_sy P J fJ l : forall st q γ j, sy (get (fst (fst (mrev_loop pw P J fJ l st q γ))) j) = sy (get st j).
+  Lemma mrev_loop_syρ P J fJ l : forall st q γ j, syρ (get (fst (fst (mrev_loop pw P J fJ l st q γ))) j) = syρ (get st j).
   Proof.
     induction l as [|i l IH]; intros st q γ j; cbn [mrev_loop]; [reflexivity|].
     cbn zeta. destruct (negb _); rewrite IH.
-    - apply sy_set_ρ.
-    - rewrite sy_set_α. apply sy_set_ρ.
+    - apply syρ_set_mark.
+    - apply syρ_set_α.
   Qed.
+  Lemma mrev_loop_sy P J fJ l : forall st q γ j, sy (get (fst (fst (mrev_loop pw P J fJ l st q γ))) j) = sy (get st j).
+  Proof. intros. apply sy_of_syρ, mrev_loop_syρ. Qed.
 
+  (* apply_masked never writes s, y or ρ: every slot keeps them, hence the stored history (with its ρ) is unchanged *)
   Lemma apply_masked_spec P st q γ J :
     let r := apply_masked pw P st q γ J in
-    same_shape st (snd r) /\ pairs (snd r) = pairs st.
+    same_shape st (snd r) /\ (forall j, syρ (get (snd r) j) = syρ (get st j)) /\
+    hist3 (snd r) = hist3 st /\ pairs (snd r) = pairs st.
   Proof.
-    unfold apply_masked. destruct (is_empty st); cbn zeta; [split; [apply same_shape_refl|reflexivity]|].
-    destruct (cbfgs_on P); [split; [apply same_shape_refl|reflexivity]|].
-    destruct (mrev_loop pw P J _ (rev_idx st) st q _) as [[st1 q1] γ1] eqn:Hr.
-    assert (Hs : same_shape st st1).
-    { pose proof (mrev_loop_shape P J (length q =? length J)%nat (rev_idx st) st q (if p_curvature P then - n1 else γ)) as Hx.
-      rewrite Hr in Hx. exact Hx. }
-    assert (Hp : pairs st1 = pairs st).
-    { apply pairs_same; [exact Hs|]. intros j.
-      pose proof (mrev_loop_sy P J (length q =? length J)%nat (rev_idx st) st q (if p_curvature P then - n1 else γ) j) as Hx.
-      rewrite Hr in Hx. exact Hx. }
-    destruct (γ1 <? n0); cbn [snd]; auto.
+    cbn zeta.
+    assert (G : same_shape st (snd (apply_masked pw P st q γ J)) /\ (forall j, syρ (get (snd (apply_masked pw P st q γ J)) j) = syρ (get st j))).
+    { unfold apply_masked. destruct (is_empty st); cbn zeta; [split; [apply same_shape_refl|reflexivity]|].
+      destruct (cbfgs_on P); [split; [apply same_shape_refl|reflexivity]|].
+      destruct (mrev_loop pw P J _ (rev_idx st) st q _) as [[st1 q1] γ1] eqn:Hr.
+      assert (Hs : same_shape st st1).
+      { pose proof (mrev_loop_shape P J (length q =? length J)%nat (rev_idx st) st q (if p_curvature P then - n1 else γ)) as Hx.
+        rewrite Hr in Hx. exact Hx. }
+      assert (Hp : forall j, syρ (get st1 j) = syρ (get st j)).
+      { intros j. pose proof (mrev_loop_syρ P J (length q =? length J)%nat (rev_idx st) st q (if p_curvature P then - n1 else γ) j) as Hx.
+        rewrite Hr in Hx. exact Hx. }
+      destruct (γ1 <? n0); cbn [snd]; auto. }
+    destruct G as [Hs Hg]. split; [exact Hs|]. split; [exact Hg|]. split.
+    - apply hist3_same; assumption.
+    - apply pairs_same; [exact Hs|]. intros j. apply sy_of_syρ, Hg.
   Qed.
 
   (* ---------- reset / resize / scale_y *)
@@ -341,7 +343,7 @@ Section Ring.
     - pose proof (apply_spec P st q γ) as (Hs & Hh & _). cbn zeta in *.
       destruct (apply P st q γ) as [[b q'] st'] eqn:Ha. cbn [fst snd] in *.
       split; [eapply same_shape_inv; eauto|]. rewrite !pairs_hist3, Hh. reflexivity.
-    - pose proof (apply_masked_spec P st q γ J) as (Hs & Hp). cbn zeta in *.
+    - pose proof (apply_masked_spec P st q γ J) as (Hs & _ & _ & Hp). cbn zeta in *.
       destruct (apply_masked pw P st q γ J) as [[b q'] st'] eqn:Ha. cbn [fst snd] in *.
       split; [eapply same_shape_inv; eauto|exact Hp].
     - destruct (reset_spec P st Hinv) as [Hi Hh]. cbn [fst]. split; [exact Hi|]. rewrite pairs_hist3, Hh. reflexivity.
@@ -416,9 +418,9 @@ Section Ring.
     assert (Hmap : map (get st') l = map (get st) l).
     { apply map_ext_in. intros j Hj. unfold st', set_α. apply get_set_slot_other. intros ->; contradiction. }
     rewrite Hmap. cbn [fwd_loop].
-    assert (Hgi : get (fst (rev_loop l st' q')) i = {| sl_s := sl_s sl; sl_y := sl_y sl; sl_ρ := sl_ρ sl; sl_α := α |}).
+    assert (Hgi : get (fst (rev_loop l st' q')) i = {| sl_s := sl_s sl; sl_y := sl_y sl; sl_ρ := sl_ρ sl; sl_α := α; sl_skip := false |}).
     { rewrite rev_loop_frame by assumption. unfold st', set_α. apply get_set_slot_same. apply Hb; left; reflexivity. }
-    rewrite Hgi. cbn [sl_s sl_y sl_ρ sl_α]. reflexivity.
+    rewrite Hgi. cbn [sl_s sl_y sl_ρ sl_α sl_skip]. reflexivity.
   Qed.
 
   (* apply = TLrec over the stored slots, newest first *)
